@@ -1,5 +1,6 @@
 import SyneTune.Base.Wire
 import SyneTune.Model.HB
+import SyneTune.Model.SearcherState
 /-
 Driver for stream `hb` (C03, C04, C13, C14, C15): run with
 `lake env lean --run SyneTune/Drivers/Hb.lean`.
@@ -38,7 +39,12 @@ def jState (s : Sched) : List (String × Json) :=
    ("task_info", jArr (s.mgr.taskInfo.map fun (t, b) => jArr [jNat t, jNat b])),
    ("active", jArr (s.active.map fun (t, i) => jArr [jNat t, Json.str i.decision.toString, jNat i.bracket]))]
 
-def hbInit (j : Json) : Except String (Sched × Json) := do
+def jSearcher (st : SState) : List (String × Json) :=
+  [("pending", jArr (st.pending.map fun (t, r) => jArr [jNat t, jNat r])),
+   ("observed", jArr (st.observed.map fun (t, ms) => jArr [jNat t, jArr (ms.map fun (r, c) => jArr [jNat r, jRat c])])),
+   ("failed", jArr (st.failed.map jNat))]
+
+def hbInit0 (j : Json) : Except String (Sched × Json) := do
   let ty ← getStr j "type"
   let type ← (if ty == "stopping" then pure HBType.stopping
               else if ty == "promotion" then pure HBType.promotion
@@ -71,7 +77,7 @@ def hbInit (j : Json) : Except String (Sched × Json) := do
   return (s, jOut (jObj [("rung_levels", jArr (levels.map jNat)), ("num_brackets", jNat mgr.numBrackets),
                          ("info", jArr (info.getD []))]))
 
-def hbStep (s : Sched) (j : Json) : Except String (Sched × Json) := do
+def hbStep0 (s : Sched) (j : Json) : Except String (Sched × Json × List SCall) := do
   let op ← getStr j "op"
   if op == "suggest" then
     let tid ← getNat j "trial_id"
@@ -83,7 +89,7 @@ def hbStep (s : Sched) (j : Json) : Except String (Sched × Json) := do
       let sj := match sg with
         | .start t b m => jObj [("kind", Json.str "start"), ("trial", jNat t), ("bracket", jNat b), ("milestone", jNat m)]
         | .resume t f m => jObj [("kind", Json.str "resume"), ("trial", jNat t), ("from", jNat f), ("milestone", jNat m)]
-      return (s', jOut (jObj ([("suggestion", sj), ("free", Json.bool fr), ("calls", jArr (calls.map jCall))] ++ jState s')))
+      return (s', jObj ([("suggestion", sj), ("free", Json.bool fr), ("calls", jArr (calls.map jCall))] ++ jState s'), calls)
   else if op == "result" then
     let tid ← getNat j "trial"
     let r ← getNat j "resource"
@@ -94,23 +100,38 @@ def hbStep (s : Sched) (j : Json) : Except String (Sched × Json) := do
     match s.onResult tid r v hint cost eps with
     | .error e => throw (errStr e)
     | .ok (s', o) =>
-      return (s', jOut (jObj ([("decision", Json.str o.decision.toString), ("free", Json.bool o.free),
-                              ("calls", jArr (o.calls.map jCall))] ++ jState s')))
+      return (s', jObj ([("decision", Json.str o.decision.toString), ("free", Json.bool o.free),
+                              ("calls", jArr (o.calls.map jCall))] ++ jState s'), o.calls)
   else if op == "remove" then
     let tid ← getNat j "trial"
     let s' := s.onRemove tid
-    return (s', jOut (jObj (jState s')))
+    return (s', jObj (jState s'), [])
   else if op == "error" then
     let tid ← getNat j "trial"
     let (s', calls) := s.onError tid
-    return (s', jOut (jObj ([("calls", jArr (calls.map jCall))] ++ jState s')))
+    return (s', jObj ([("calls", jArr (calls.map jCall))] ++ jState s'), calls)
   else if op == "complete" then
     let tid ← getNat j "trial"
     let r ← getNat j "resource"
     let v ← getRat j "metric"
     match s.onComplete tid r v with
     | .error e => throw (errStr e)
-    | .ok (s', calls) => return (s', jOut (jObj ([("calls", jArr (calls.map jCall))] ++ jState s')))
+    | .ok (s', calls) => return (s', jObj ([("calls", jArr (calls.map jCall))] ++ jState s'), calls)
   else throw s!"bad-op {op}"
+
+def hbInit (j : Json) : Except String ((Sched × SState) × Json) := do
+  let (s, o) ← hbInit0 j
+  return ((s, { mode := s.mgr.mode }), o)
+
+/-- the searcher-state model follows the scheduler's calls; a searcher-side assertion is
+reported as the operation's error -/
+def hbStep (ss : Sched × SState) (j : Json) : Except String ((Sched × SState) × Json) := do
+  let (s', o, calls) ← hbStep0 ss.1 j
+  match ss.2.applyAll calls with
+  | .error e => throw ("searcher:" ++ errStr e)
+  | .ok st' =>
+    match o with
+    | .obj _ => return ((s', st'), jOut (o.mergeObj (jObj (jSearcher st'))))
+    | _ => return ((s', st'), jOut o)
 
 def main : IO Unit := (Machine.mk hbInit hbStep).main
